@@ -108,6 +108,10 @@ func stdFailures(o *fw.Out, res *sess.Result, ctx string) bool {
 		}
 		o.Viol(kind+":"+commandFrame(sess.ReadlineStack(res.Dump)), ctx+" CPU/memory limit exceeded inside one call\n"+trimStack(sess.ReadlineStack(res.Dump)))
 		return false
+	case res.Stuck:
+		o.Viol("stuck-keystroke", ctx+" bytes typed for this wait were consumed by another goroutine: the terminal queue is empty and Readline is still parked in its read\n"+trimStack(res.Dump))
+		o.O.Recycle = true
+		return false
 	case res.Deadlock:
 		o.Viol("deadlock:"+topRepoFrames(sess.ReadlineStack(res.Dump)), ctx+" Readline goroutine blocked in library code\n"+trimStack(sess.ReadlineStack(res.Dump)))
 		o.O.Recycle = true
